@@ -44,7 +44,7 @@ def gen_json_cases(c):
     return cases
 
 INLINE_ALPHA = ['[', '[', ']', ']', '`', 'a', ' ', '\n', '1', '+', '2', 'x', '"', '\\', 'é', '𝕊', '#', '=', ';']
-EXPRS = ['1+1', '2*3', 'a = 5; 3a', '6a', '1/0', 'x', '"q\\"s"', '', ' 40 + 2 ', '1 [', '[1', '`', '1`+`1', '2 ]', '@debug 1',
+EXPRS = [' ', ';', '()', 'u = ()', 'u', '# only a comment', '1;', '"" ', '#"raw"#', '#"a"# + #"b"#', '1+1', '2*3', 'a = 5; 3a', '6a', '1/0', 'x', '"q\\"s"', '', ' 40 + 2 ', '1 [', '[1', '`', '1`+`1', '2 ]', '@debug 1',
          '"\\u{1d54a}\\n"', '1 kg to g', 'oops(']
 
 def gen_inline_docs(c):
@@ -148,6 +148,31 @@ def check_strlit(c):
         same = (po[0] == b'ok' and isinstance(pm, list) and pm[0] == b'ok' and po[1] == pm[1]) or (po[0] == b'err' and isinstance(pm, list) and pm[0] == b'err' and po[1] == pm[1])
         if not same:
             c.violation('strlit-lex-differs-from-model', {'kind': 'impl-vs-model', 'literal': t, 'literal_codepoints': cps(t), 'impl': o, 'model': m}, no_input=True)
+    # ---- raw strings #"..."#: the literal ends at the FIRST "# (spec), also when more raw
+    # strings, comments or statements follow in the same input ----
+    raw_cases = []
+    alphabet = ['a', 'b', ' ', '"', '#', "'", '\\', 'é', '\n', '1', '+', '[', ']', '`', chr(0x1d54a)]
+    for _ in range(150 if c.tier == 'quick' else 2500):
+        def body():
+            t = ''.join(r.choice(alphabet) for _ in range(r.randint(0, 8)))
+            return t.replace('"#', '" #')
+        t1, t2 = body(), body()
+        shape = r.choice(['single', 'two-stmt', 'concat', 'comment', 'assign'])
+        if shape == 'single':
+            raw_cases.append(('#"%s"#' % t1, t1))
+        elif shape == 'two-stmt':
+            raw_cases.append(('#"%s"#; #"%s"#' % (t1, t2), t2))
+        elif shape == 'concat':
+            raw_cases.append(('#"%s"# + #"%s"#' % (t1, t2), t1 + t2))
+        elif shape == 'comment':
+            raw_cases.append(('#"%s"# # trailing "# comment' % t1, t1))
+        else:
+            raw_cases.append(('x = #"%s"#; y = #"%s"#; x' % (t1, t2), t1))
+    ro = c.impl('fmt', [sx([Sym('strlit'), cps(t)]) for t, _ in raw_cases])
+    for (t, want), o in zip(raw_cases, ro):
+        c.note_case('sr:' + t, True, 'strlit-raw')
+        if o != sx([b'ok', cps(want)]):
+            c.violation('raw-string-denotation', {'kind': 'impl-vs-spec', 'op': 'strlit', 'literal': t, 'literal_codepoints': cps(t), 'impl': o, 'denoted_codepoints': cps(want)})
     if lits:
         c.sample({'op': 'strlit', 'literal': ''.join(map(chr, lits[0][0])), 'denoted': lits[0][1]})
 
